@@ -112,6 +112,9 @@ def opOfJson (j : Json) : Except String Op := do
   | "rm_rxn" => pure (.removeRxn (← s "r"))
   | "add_met" => pure (.addMet (← s "m"))
   | "rm_met" => pure (.rmMet (← s "m"))
+  | "rm_met_d" => pure (.rmMetD (← s "m"))
+  | "rm_rxn_o" => pure (.removeRxnO (← s "r"))
+  | "rm_rxns" => pure (.removeRxns (← (← (← j.getObjVal? "rs").getArr?).toList.mapM (·.getStr?)) (← (← j.getObjVal? "orphans").getBool?))
   | "imul" => pure (.imul (← s "r") (← parseRat (← s "k")))
   | "add_rxn" => pure (.addRxn (← s "r") (← parseEB (← s "lb")) (← parseEB (← s "ub")) (← pairsOf (← j.getObjVal? "st")))
   | "enter" => pure .enter
